@@ -40,8 +40,10 @@ def make_scratch(patch):
     return tmp, dst
 
 
-def run_child(prop, scratch_repo, evdir):
+def run_child(prop, scratch_repo, evdir, cache=None):
     env = dict(os.environ, MV_REPO=scratch_repo, VERIF_EVIDENCE_DIR=evdir, VERIF_SELFTEST_CHILD='1')
+    if cache:
+        env['VERIF_FACTS_CACHE'] = cache
     p = subprocess.run([sys.executable, os.path.join(V, 'check'), prop, '--tier', 'quick'], cwd=V, env=env, capture_output=True, text=True)
     keys = []
     reports = []
